@@ -703,6 +703,8 @@ func generated() map[string]Letter {
 			put(fmt.Sprintf("ADD %s@%s ->2", k.tag, t), ni, add, k.mk(2, "", nil))
 			put(fmt.Sprintf("ADD %s@%s ->1@%s", k.tag, t, ot), ni, add, k.mk(1, other, nil))
 			put(fmt.Sprintf("ADD %s@%s ->1 meta", k.tag, t), ni, add, k.mk(1, "", []byte{7}))
+			// the entry's OWN instance named explicitly: the same reference as leaving the field unset
+			put(fmt.Sprintf("ADD %s@%s ->1@own", k.tag, t), ni, add, k.mk(1, ni, nil))
 			put(fmt.Sprintf("REPLACE %s@%s ->2", k.tag, t), ni, rep, k.mk(2, "", nil))
 			put(fmt.Sprintf("REPLACE %s@%s ->1@%s", k.tag, t, ot), ni, rep, k.mk(1, other, nil))
 			put(fmt.Sprintf("DELETE %s@%s", k.tag, t), ni, del, k.mk(0, "", nil))
